@@ -57,6 +57,9 @@ PAYLOADS = [
     "b'bytes'", "1j", "{1: 2}", "{1, 2}", "*items", "**items", "yield 1", "await x", "lambda: 0", "x.y.z", "a[1:2]", "a if b else c",
     "(" * 300 + "1" + ")" * 300, "(" * 5000 + "1" + ")" * 5000, "-" * 3000 + "1", "not " * 2000 + "1", "a" * 100000, "1+" * 3000 + "1",
     "[" * 200 + "]" * 200, "'\\x00'", "'\\ud800'", "\"\\\"\"", "'''\nmulti\nline\n'''", "0x7fffffffffffffff*2", "0o777", "1_000_000", "0b101",
+    "'{0.__class__}'.format(1)", "'{0.__class__.__mro__}'.format(1)", "'{0.__hash__}'.format(0)", "'{.real.__class__}'.format(1)", "'{a.__class__}'.format(a=1)",
+    "'{0[0].__doc__}'.format(['x'])", "'{}-{}'.format(1, 2)", "'{0.__init__.__globals__}'.format(led)", "'%(a)s' % {'a': 1}", "'{!r}'.format(open)", "str.format('{0.__class__}', 1)",
+    "format(1, '>5')", "'{:>{w}}'.format(1, w=5)", "(1).__class__", "(1).__class__.__name__", "''.join.__self__.__class__", "type(1)", "repr(len)", "str(print)", "f'{len}'", "f'{(1).__class__}'",
     "True", "\"A0\"", "A0", "\"HC-SR04\" if 1 else 2", "[1, [2, [3]]]", "(1, 2, 3, 4, 5, 6, 7, 8)", "[0.5] * 8", "\"left\" + \"\"",
 ]
 
@@ -255,6 +258,9 @@ def main() -> int:
             if r.get("events"):
                 rep.violation(f"audit events outside the whitelist during parse/emit: {r['events'][:3]} on {item['kind']}", w,
                               key="audit:" + r["events"][0][0])
+            if r.get("host_leak"):
+                rep.violation(f"the firmware text contains the repr of a host object ({r['host_leak']!r}): an attribute of a host object was evaluated "
+                              f"for the script ({item['kind']})", w, key="host-object-leak")
             if r.get("canary"):
                 rep.violation(f"canary side effect observed: user expression was executed ({item['kind']})", w, key="canary")
             if r.get("env_changed"):
